@@ -38,13 +38,28 @@ class _Proxy:
     def __getattr__(self, name):
         over = object.__getattribute__(self, '_over')
         if name in over:
-            return over[name]
+            o = over[name]
+            return _guarded(o, name) if callable(o) and not isinstance(o, type) else o
         obj = getattr(object.__getattribute__(self, '_real'), name)
         if isinstance(obj, _types.ModuleType):
             return _Proxy(obj, {})
-        if callable(obj) and not isinstance(obj, type) and type(obj).__name__ != 'ufunc':
-            return _guarded(obj, name)
+        if callable(obj) and not isinstance(obj, type):
+            return _guarded(obj, name) if type(obj).__name__ != 'ufunc' else _GuardedUfunc(obj, name)
         return obj
+
+
+class _GuardedUfunc:
+    """a numpy ufunc as seen by verified code: calls are guarded like other numpy functions, everything else (reduce, at, ...) is the ufunc's"""
+
+    def __init__(self, uf, name):
+        object.__setattr__(self, '_uf', uf)
+        object.__setattr__(self, '_call', _guarded(uf, name))
+
+    def __call__(self, *a, **k):
+        return object.__getattribute__(self, '_call')(*a, **k)
+
+    def __getattr__(self, n):
+        return getattr(object.__getattribute__(self, '_uf'), n)
 
 
 def _has_symbolic(x, depth=0):
